@@ -76,7 +76,7 @@ fn c16_sub_date() {
     kani::cover!(n == 1);
 }
 
-//@ unit c16_add_days_pool prop=C16,C02,C03 chunks=ints:253402300799,0,221845392000,9000000000,-1,86399,253402214400,-62135596800 quickn=4 mem=6 timeout=1800/3600 bound="Oracle-style date = the parameter (seconds since 1970: both range ends, dates beyond the year 2255 where microsecond counts exceed 2^53, the epoch and its neighbours) x every f64 day offset of magnitude below 0.000024 (about two seconds): the result is the Timestamp::add_days result rounded to the nearest whole second in exact integer arithmetic (ties away from zero), sub_days is add_days of the negation, errors agree"
+//@ unit c16_add_days_pool prop=C16,C02,C03 chunks=ints:253402300799,0,221845392000,9000000000,-1,86399,253402214400,-62135596800 mem=6 timeout=1800/3600 quick=all bound="Oracle-style date = the parameter (seconds since 1970: both range ends, dates beyond the year 2255 where microsecond counts exceed 2^53, the epoch and its neighbours) x every f64 day offset of magnitude below 0.000024 (about two seconds): the result is the Timestamp::add_days result rounded to the nearest whole second in exact integer arithmetic (ties away from zero), sub_days is add_days of the negation, errors agree"
 fn c16_add_days_pool(secs: i64) {
     let days: f64 = kani::any();
     // offsets of at most about two seconds: the second-rounding then only sees microsecond counts
